@@ -164,6 +164,18 @@ func (n *namer) genCmdBody(c *Cmd) {
 			g.EnvNS = fmt.Sprintf("EN%d", d.NewID())
 		}
 	}
+	if c.Parent == nil {
+		// the struct handed to NewParser carries no tag of its own: a namespace or env-namespace on the
+		// "Application Options" group is assigned through the exported fields of that group. (The same on a
+		// command's group would also rename the options of its sub-commands and its built-in help option; that
+		// shape is not modelled.)
+		if r.Chance(cfg.PNamespace, 300) {
+			g.Namespace = fmt.Sprintf("n%d", d.NewID())
+		}
+		if r.Chance(cfg.PEnvNS, 200) {
+			g.EnvNS = fmt.Sprintf("EN%d", d.NewID())
+		}
+	}
 	n.genGroupBody(g, c, 0)
 	// positional arguments
 	if r.Chance(cfg.PPos, 100) && cfg.PosMax > 0 {
